@@ -4,6 +4,9 @@ From AMV Require Import Base.ListSet Model.Schema Model.Resolver Spec.C02 Spec.C
 From AMV Require Proofs.C19Proofs.
 Import ListNotations.
 
+Ltac unf := unfold upd, set_inflight, set_poolready, set_errworker, set_lost, log_kill,
+                   rekeyed, counted_err, lost_err in *.
+
 (* ------------------------------------------------------------ the map *)
 
 Lemma wset_len_found : forall k v l i, wfind k l = Some i -> length (wset k v l) = length l.
@@ -63,6 +66,9 @@ Lemma on_worker_rest : forall s k f,
   s_foreign (on_worker s k f) = s_foreign s /\ s_poolready (on_worker s k f) = s_poolready s.
 Proof. intros. unfold on_worker. destruct (wfind k (s_workers s)); cbn; auto. Qed.
 
+Lemma on_worker_lost : forall s k f, s_lost (on_worker s k f) = s_lost s.
+Proof. intros. unfold on_worker. destruct (wfind k (s_workers s)); cbn; auto. Qed.
+
 Lemma tracked_lt : forall c s, (tracked s <? c_max c)%N = true ->
   length (s_workers s) < N.to_nat (c_max c).
 Proof. intros c s H. apply N.ltb_lt in H. unfold tracked in H. lia. Qed.
@@ -80,7 +86,9 @@ Proof.
   destruct e; cbn; auto.
   - intros H. apply orb_false_iff in H. tauto.
   - destruct (wfind b (s_workers s)); cbn; auto.
-  - destruct counted; auto. destruct (wfind k (s_workers s)); cbn; auto.
+  - destruct counted; [|cbn; auto]. destruct (wfind k (s_workers s)); [|cbn; auto].
+    destruct (fx_err_multi fx || negb (s_errworker s)); [|cbn; auto].
+    destruct (c_errkill c <? w_errs w + 1)%N; cbn; auto.
   - intros H. rewrite (proj1 (proj2 (proj2 (on_worker_rest s k _)))) in H. auto.
   - intros H. rewrite (proj1 (proj2 (proj2 (on_worker_rest s k _)))) in H. auto.
   - intros H. rewrite (proj1 (proj2 (proj2 (on_worker_rest s k _)))) in H. auto.
@@ -112,14 +120,15 @@ Proof.
     destruct (wfind b (s_workers s)) eqn:W; [|unfold P; auto].
     unfold P; cbn.
     pose proof (wdel_len_found b (s_workers s) _ W).
-    pose proof (wset_len_le a
-      {| w_conn := true; w_ready := true; w_errs := w_errs w; w_recent := w_recent w;
-         w_killreq := w_killreq w |} (wdel b (s_workers s))). lia.
+    pose proof (wset_len_le a (rekeyed w) (wdel b (s_workers s))). lia.
   - (* EKilled *) unfold P; cbn. pose proof (wdel_len_le k (s_workers s)). lia.
   - (* EErr *)
-    destruct counted; [|unfold P; auto].
-    destruct (wfind k (s_workers s)) eqn:W; [|unfold P; auto].
-    unfold P; cbn. erewrite wset_len_found by eauto. lia.
+    destruct counted; [|unfold P; cbn; auto].
+    destruct (wfind k (s_workers s)) eqn:W; [|unfold P; cbn; auto].
+    destruct (fx_err_multi fx || negb (s_errworker s)).
+    + destruct (c_errkill c <? w_errs w + 1)%N; unfold P; cbn;
+        erewrite wset_len_found by eauto; lia.
+    + unfold P; cbn. erewrite wset_len_found by eauto. lia.
   - apply P_on_worker. split; auto.
   - apply P_on_worker. split; auto.
   - apply P_on_worker. split; auto.
@@ -183,12 +192,12 @@ Proof.
   - pose proof (wdel_len_le k (s_workers s)). lia.
   - destruct (wfind b (s_workers s)) eqn:W; [|auto]. cbn.
     pose proof (wdel_len_found b (s_workers s) _ W).
-    pose proof (wset_len_le a
-      {| w_conn := true; w_ready := true; w_errs := w_errs w; w_recent := w_recent w;
-         w_killreq := w_killreq w |} (wdel b (s_workers s))). lia.
+    pose proof (wset_len_le a (rekeyed w) (wdel b (s_workers s))). lia.
   - pose proof (wdel_len_le k (s_workers s)). lia.
-  - destruct counted; [|auto]. destruct (wfind k (s_workers s)) eqn:W; [|auto].
-    cbn. erewrite wset_len_found by eauto. auto.
+  - destruct counted; [|cbn; auto]. destruct (wfind k (s_workers s)) eqn:W; [|cbn; auto].
+    destruct (negb (s_errworker s)).
+    + destruct (c_errkill c <? w_errs w + 1)%N; cbn; erewrite wset_len_found by eauto; auto.
+    + cbn. erewrite wset_len_found by eauto. auto.
   - rewrite on_worker_len. auto.
   - rewrite on_worker_len. auto.
   - rewrite on_worker_len. auto.
@@ -220,13 +229,15 @@ Qed.
 
 (* ------------------------------------------------------------ PoolReady *)
 
-Lemma effect_poolready : forall c s e,
-  s_poolready (effect c s e) =
+Lemma effect_poolready : forall fx c s e,
+  s_poolready (effect fx c s e) =
   match e with ETryReady => true | ETryUnready => false | _ => s_poolready s end.
 Proof.
   intros. destruct e; cbn; try reflexivity.
   - destruct (wfind b (s_workers s)); reflexivity.
-  - destruct counted; [|reflexivity]. destruct (wfind k (s_workers s)); reflexivity.
+  - destruct counted; [|reflexivity]. destruct (wfind k (s_workers s)); [|reflexivity].
+    destruct (fx_err_multi fx || negb (s_errworker s)); [|reflexivity].
+    destruct (c_errkill c <? w_errs w + 1)%N; reflexivity.
   - apply on_worker_rest.
   - apply on_worker_rest.
   - apply on_worker_rest.
@@ -296,9 +307,10 @@ Qed.
 
 (* ------------------------------------------------------------ errors *)
 
-Definition K (c : cfg) (l : list (nat * winfo)) : bool := forallb (fun p => kill_ok c (snd p)) l.
+(* generic: a predicate on entries, as a boolean over the map *)
+Definition allw (h : winfo -> bool) (l : list (nat * winfo)) : bool := forallb (fun p => h (snd p)) l.
 
-Lemma K_wset : forall c k v l, K c l = true -> kill_ok c v = true -> K c (wset k v l) = true.
+Lemma allw_wset : forall h k v l, allw h l = true -> h v = true -> allw h (wset k v l) = true.
 Proof.
   induction l as [|[k' j] r IH]; cbn; intros H Hv.
   - rewrite Hv. reflexivity.
@@ -308,75 +320,202 @@ Proof.
     + rewrite Hj. apply IH; auto.
 Qed.
 
-Lemma K_wdel : forall c k l, K c l = true -> K c (wdel k l) = true.
+Lemma allw_wdel : forall h k l, allw h l = true -> allw h (wdel k l) = true.
 Proof.
   induction l as [|[k' j] r IH]; cbn; intros H; [reflexivity|].
   apply andb_true_iff in H. destruct H as [Hj Hr].
   destruct (Nat.eqb k k'); cbn; [auto|]. rewrite Hj. auto.
 Qed.
 
-Lemma K_find : forall c k l i, K c l = true -> wfind k l = Some i -> kill_ok c i = true.
+Lemma allw_find : forall h k l i, allw h l = true -> wfind k l = Some i -> h i = true.
 Proof.
   induction l as [|[k' j] r IH]; cbn; intros i H F; [discriminate|].
   apply andb_true_iff in H. destruct H as [Hj Hr].
   destruct (Nat.eqb k k'); [inversion F; subst; exact Hj|]. eapply IH; eauto.
 Qed.
 
-Lemma K_on_worker : forall c s k f,
-  K c (s_workers s) = true ->
-  (forall i, kill_ok c i = true -> kill_ok c (f i) = true) ->
-  K c (s_workers (on_worker s k f)) = true.
+Lemma allw_on_worker : forall h s k f,
+  allw h (s_workers s) = true ->
+  (forall i, h i = true -> h (f i) = true) ->
+  allw h (s_workers (on_worker s k f)) = true.
 Proof.
-  intros c s k f H Hf. unfold on_worker. destruct (wfind k (s_workers s)) eqn:W; [|exact H].
-  cbn. apply K_wset; auto. apply Hf. eapply K_find; eauto.
+  intros h s k f H Hf. unfold on_worker. destruct (wfind k (s_workers s)) eqn:W; [|exact H].
+  cbn. apply allw_wset; auto. apply Hf. eapply allw_find; eauto.
 Qed.
 
-Lemma K_step : forall fx c s e,
-  K c (s_workers s) = true -> K c (s_workers (fst (step fx c s e))) = true.
+Lemma not_over_zero : forall c, over_limit c 0 = false.
+Proof.
+  intros. unfold over_limit. destruct (c_errkill c <? 0)%N eqn:E; [apply N.ltb_lt in E; lia|reflexivity].
+Qed.
+
+(* (a) counted errors: holds of the code as found *)
+Lemma KC_step : forall fx c s e,
+  allw (kill_counted_ok c) (s_workers s) = true ->
+  allw (kill_counted_ok c) (s_workers (fst (step fx c s e))) = true.
 Proof.
   intros fx c s e H. unfold step. destruct (gate fx c s e); cbn; [|exact H].
   destruct e; cbn; auto.
-  - apply K_wset; auto. unfold kill_ok, over_limit. cbn.
-    destruct (c_errkill c <? 0)%N eqn:E; [apply N.ltb_lt in E; lia|reflexivity].
-  - apply K_wdel; auto.
+  - apply allw_wset; auto. unfold kill_counted_ok. cbn. rewrite not_over_zero. reflexivity.
+  - apply allw_wdel; auto.
   - destruct (wfind b (s_workers s)) eqn:W; [|exact H]. cbn.
-    apply K_wset; [apply K_wdel; auto|].
-    pose proof (K_find c b _ _ H W) as Hi. unfold kill_ok in *. cbn. exact Hi.
-  - apply K_wdel; auto.
-  - destruct counted; [|exact H]. destruct (wfind k (s_workers s)) eqn:W; [|exact H]. cbn.
-    apply K_wset; auto. unfold kill_ok, over_limit. cbn.
-    destruct (c_errkill c <? w_errs w + 1)%N; cbn; [apply orb_true_r|reflexivity].
-  - apply K_on_worker; auto.
-  - apply K_on_worker; auto.
-  - apply K_on_worker; auto. intros i _. unfold kill_ok, over_limit. cbn.
-    destruct (c_errkill c <? 0)%N eqn:E; [apply N.ltb_lt in E; lia|reflexivity].
+    apply allw_wset; [apply allw_wdel; auto|].
+    pose proof (allw_find _ b _ _ H W) as Hi. unfold kill_counted_ok in *. cbn. exact Hi.
+  - apply allw_wdel; auto.
+  - destruct counted; [|exact H]. destruct (wfind k (s_workers s)) eqn:W; [|exact H].
+    pose proof (allw_find _ k _ _ H W) as Hi.
+    destruct (fx_err_multi fx || negb (s_errworker s)).
+    + assert (A : allw (kill_counted_ok c) (wset k (counted_err c w) (s_workers s)) = true).
+      { apply allw_wset; auto. unfold kill_counted_ok, over_limit. cbn.
+        destruct (c_errkill c <? w_errs w + 1)%N; cbn; [apply orb_true_r|reflexivity]. }
+      destruct (c_errkill c <? w_errs w + 1)%N; cbn; exact A.
+    + cbn. apply allw_wset; auto.
+  - apply allw_on_worker; auto.
+  - apply allw_on_worker; auto.
+  - apply allw_on_worker; auto. intros i _. unfold kill_counted_ok. cbn.
+    rewrite not_over_zero. reflexivity.
 Qed.
 
-Lemma K_run : forall fx c evs s,
-  K c (s_workers s) = true -> K c (s_workers (run_from fx c s evs)) = true.
+Lemma KC_run : forall fx c evs s,
+  allw (kill_counted_ok c) (s_workers s) = true ->
+  allw (kill_counted_ok c) (s_workers (run_from fx c s evs)) = true.
 Proof.
-  induction evs as [|e r IH]; intros s H; cbn; [exact H|]. apply IH. apply K_step. exact H.
+  induction evs as [|e r IH]; intros s H; cbn; [exact H|]. apply IH. apply KC_step. exact H.
 Qed.
 
-Lemma errors_request_kill_lemma : forall fx c evs, all_kill_ok c (run fx c evs) = true.
-Proof. intros. unfold all_kill_ok. apply (K_run fx c evs init_st). reflexivity. Qed.
+Lemma counted_errors_request_kill_lemma : forall fx c evs,
+  all_kill_counted_ok c (run fx c evs) = true.
+Proof. intros. unfold all_kill_counted_ok. apply (KC_run fx c evs init_st). reflexivity. Qed.
+
+(* (b) accumulated errors: false of the code as found *)
+Lemma errors_request_kill_refuted_lemma : exists c evs,
+  all_kill_ok c (run no_fixes c evs) = false /\
+  s_lost (run no_fixes c evs) = true /\
+  (exists i, wfind 1 (s_workers (run no_fixes c evs)) = Some i /\
+             w_delivered i = 3%N /\ w_errs i = 1%N /\ w_killreq i = false).
+Proof.
+  exists {| c_min := 1; c_max := 2; c_errkill := 1 |},
+         [EForkReq; EForking 1; ESetIns 1; EErr 1 true; EErr 1 true; EErr 1 true].
+  vm_compute. split; [reflexivity|]. split; [reflexivity|]. eexists. repeat split.
+Qed.
+
+(* (c) ... true as long as no error arrives while ErrWorker is active *)
+Definition same_count (i : winfo) : bool := (w_delivered i =? w_errs i)%N.
+
+Lemma lost_mono_step : forall fx c s e,
+  s_lost (fst (step fx c s e)) = false -> s_lost s = false.
+Proof.
+  intros fx c s e. unfold step. destruct (gate fx c s e); cbn; [|auto].
+  destruct e; cbn; auto.
+  - destruct (wfind b (s_workers s)); cbn; auto.
+  - destruct counted; [|cbn; auto]. destruct (wfind k (s_workers s)); [|cbn; auto].
+    destruct (fx_err_multi fx || negb (s_errworker s)); [|cbn; discriminate].
+    destruct (c_errkill c <? w_errs w + 1)%N; cbn; auto.
+  - rewrite on_worker_lost. auto.
+  - rewrite on_worker_lost. auto.
+  - rewrite on_worker_lost. auto.
+Qed.
+
+Lemma lost_mono_run : forall fx c evs s,
+  s_lost (run_from fx c s evs) = false -> s_lost s = false.
+Proof.
+  induction evs as [|e r IH]; intros s H; cbn in *; [auto|].
+  apply IH in H. eapply lost_mono_step; eauto.
+Qed.
+
+Lemma SC_step : forall fx c s e,
+  allw same_count (s_workers s) = true -> s_lost (fst (step fx c s e)) = false ->
+  allw same_count (s_workers (fst (step fx c s e))) = true.
+Proof.
+  intros fx c s e H. unfold step. destruct (gate fx c s e); cbn; [|auto].
+  destruct e; cbn; auto; intros L.
+  - apply allw_wset; auto.
+  - apply allw_wdel; auto.
+  - destruct (wfind b (s_workers s)) eqn:W; [|exact H]. cbn.
+    apply allw_wset; [apply allw_wdel; auto|].
+    pose proof (allw_find _ b _ _ H W) as Hi. unfold same_count in *. cbn. exact Hi.
+  - apply allw_wdel; auto.
+  - destruct counted; [|exact H]. destruct (wfind k (s_workers s)) eqn:W; [|exact H].
+    pose proof (allw_find _ k _ _ H W) as Hi.
+    destruct (fx_err_multi fx || negb (s_errworker s)); [|cbn in L; discriminate].
+    assert (A : allw same_count (wset k (counted_err c w) (s_workers s)) = true).
+    { apply allw_wset; auto. unfold same_count in *. cbn. apply N.eqb_eq in Hi.
+      apply N.eqb_eq. lia. }
+    destruct (c_errkill c <? w_errs w + 1)%N; cbn; exact A.
+  - apply allw_on_worker; auto.
+  - apply allw_on_worker; auto.
+  - apply allw_on_worker; auto.
+Qed.
+
+Lemma SC_run : forall fx c evs s,
+  allw same_count (s_workers s) = true -> s_lost (run_from fx c s evs) = false ->
+  allw same_count (s_workers (run_from fx c s evs)) = true.
+Proof.
+  induction evs as [|e r IH]; intros s H L; cbn in *; [auto|].
+  apply IH; auto. apply SC_step; auto. eapply lost_mono_run; eauto.
+Qed.
+
+Lemma allw_both : forall c l,
+  allw same_count l = true -> allw (kill_counted_ok c) l = true -> allw (kill_ok c) l = true.
+Proof.
+  unfold allw. induction l as [|[k i] r IH]; cbn; intros A B; [reflexivity|].
+  apply andb_true_iff in A. apply andb_true_iff in B. destruct A as [A1 A2], B as [B1 B2].
+  apply andb_true_iff. split; [|apply IH; auto].
+  unfold same_count in A1. apply N.eqb_eq in A1. unfold kill_ok, kill_counted_ok in *.
+  rewrite A1. exact B1.
+Qed.
+
+Lemma errors_request_kill_partial_lemma : forall fx c evs,
+  s_lost (run fx c evs) = false -> all_kill_ok c (run fx c evs) = true.
+Proof.
+  intros fx c evs L. unfold all_kill_ok. apply allw_both.
+  - apply (SC_run fx c evs init_st); auto.
+  - apply (KC_run fx c evs init_st). reflexivity.
+Qed.
+
+(* (d) the repair: ErrWorker declared Multi - ErrWorkerState runs for every error *)
+Lemma never_lost_step : forall c s e,
+  s_lost s = false -> s_lost (fst (step err_multi_fix c s e)) = false.
+Proof.
+  intros c s e H. unfold step. destruct (gate err_multi_fix c s e); cbn; [|auto].
+  destruct e; cbn; auto.
+  - destruct (wfind b (s_workers s)); cbn; auto.
+  - destruct counted; [|cbn; auto]. destruct (wfind k (s_workers s)); [|cbn; auto].
+    destruct (c_errkill c <? w_errs w + 1)%N; cbn; auto.
+  - rewrite on_worker_lost. auto.
+  - rewrite on_worker_lost. auto.
+  - rewrite on_worker_lost. auto.
+Qed.
+
+Lemma never_lost_run : forall c evs s,
+  s_lost s = false -> s_lost (run_from err_multi_fix c s evs) = false.
+Proof.
+  induction evs as [|e r IH]; intros s H; cbn; [auto|]. apply IH. apply never_lost_step. auto.
+Qed.
+
+Lemma errors_request_kill_fixed_lemma : forall c evs,
+  all_kill_ok c (run err_multi_fix c evs) = true.
+Proof.
+  intros. apply errors_request_kill_partial_lemma. apply (never_lost_run c evs init_st). reflexivity.
+Qed.
 
 (* the request is issued by the very event that takes the count over the limit *)
 Lemma error_over_limit_logged_lemma : forall fx c evs k i,
   let s := run fx c evs in
   wfind k (s_workers s) = Some i -> over_limit c (w_errs i + 1) = true ->
+  (fx_err_multi fx || negb (s_errworker s)) = true ->
   let s' := fst (step fx c s (EErr k true)) in
   s_killlog s' = k :: s_killlog s /\
   exists i', wfind k (s_workers s') = Some i' /\ w_killreq i' = true /\ w_errs i' = (w_errs i + 1)%N.
 Proof.
-  intros fx c evs k i s W O s'. subst s'. unfold step. cbn.
-  rewrite W. unfold over_limit in O. rewrite O. cbn. split; [reflexivity|].
+  intros fx c evs k i s W O Hh s'. subst s'. unfold step. cbn.
+  rewrite W, Hh. unfold over_limit in O. rewrite O. cbn. split; [reflexivity|].
   eexists. split.
-  - clear O. generalize dependent (s_workers s). induction l as [|[k' j] r IH]; cbn; intros F; [discriminate|].
+  - clear O Hh. generalize dependent (s_workers s).
+    induction l as [|[k' j] r IH]; cbn; intros F; [discriminate|].
     destruct (Nat.eqb k k') eqn:E; cbn.
     + rewrite Nat.eqb_refl. reflexivity.
     + rewrite E. apply IH. exact F.
-  - cbn. split; [apply orb_true_r|reflexivity].
+  - cbn. split; [rewrite O; apply orb_true_r|reflexivity].
 Qed.
 
 (* ------------------------------------------------------------ state groups *)
@@ -398,6 +537,9 @@ Lemma poolready_nonvacuous_lemma :
   (* an error makes one of them unready: the re-check withdraws PoolReady *)
   s_poolready (run no_fixes c (up ++ [ERekey 2 12; ETryReady; EErr 12 true; ETryUnready])) = false /\
   (* the second error takes it over the limit of 1: kill requested *)
-  s_killlog (run no_fixes c (up ++ [ERekey 2 12; EErr 12 true; EErr 12 true])) = [12] /\
-  s_killlog (run no_fixes c (up ++ [ERekey 2 12; EErr 12 true; EErr 12 false])) = [].
+  s_killlog (run no_fixes c (up ++ [ERekey 2 12; EErr 12 true; EErrClear; EErr 12 true])) = [12] /\
+  s_killlog (run no_fixes c (up ++ [ERekey 2 12; EErr 12 true; EErrClear; EErr 12 false])) = [] /\
+  (* ... unless it arrives while ErrWorker is still active *)
+  s_killlog (run no_fixes c (up ++ [ERekey 2 12; EErr 12 true; EErr 12 true])) = [] /\
+  s_killlog (run err_multi_fix c (up ++ [ERekey 2 12; EErr 12 true; EErr 12 true])) = [12].
 Proof. vm_compute. repeat split. Qed.
